@@ -53,6 +53,7 @@ inductive Err where
   | e0133          -- call to unsafe function outside an unsafe block
   | e0054          -- cast of an integer to bool
   | unresolved     -- E0412 / E0425 / E0433: a name bindgen uses but does not define
+  | e0432          -- unresolved import (`pub use self::…`)
   | missingTrait   -- E0277: a member type lacks a derived trait (Hash, Default, Copy, Clone, …)
   | e0587          -- conflicting packed and align hints
   | e0223          -- ambiguous associated type (`Alias::Type`)
@@ -110,6 +111,9 @@ def classify (o : Opts) (f : Facts) : Err → Option Finding
   | .missingTrait => if deriveFragile o f then some .derive_member_trait_missing else none
   | .e0587 => if f.packed && f.aligned then some .packed_contains_aligned else none
   | .e0223 => if o.moduleConsts then some .moduleconsts_enum_alias else none
+  | .e0432 =>
+    if o.moduleConsts then some .moduleconsts_enum_alias
+    else if f.cppScope && o.cNaming then some .cnaming_scoped_name else none
   | .e0308 => if f.hasUnion && f.bitfield && o.manuallyDrop then some .union_bitfield_manually_drop else none
   | .e0392 => if o.flexDst && f.flexArray then some .flexarray_dst_unused_param else none
   | .dupName => if f.tagTypedefSame then some .tag_typedef_collision else none
